@@ -208,6 +208,7 @@ func (x *Exec) evalSelector(s *State, e *ast.SelectorExpr) *Term {
 		}
 		fv := x.u.fieldVar(named, e.Sel.Name)
 		fs := x.u.sortOf(ft)
+		x.checkGuard(s, named, e.Sel.Name, base, false, e)
 		val := withType(Select(x.getSt(s, fv, arraySort(SRef, fs)), base), ft)
 		if isSliceSort(fs) {
 			s.assume(Le(Num(0), sliceLen(val)))
@@ -834,4 +835,30 @@ func (x *Exec) inlineInit(s *State, v *types.Var) *Term {
 		t = x.eval(s, init)
 	}()
 	return t
+}
+
+// checkGuard: a field declared `guard pkg.Type.field by lockField` may be read only while the lock of the same
+// object is held (read or write) and written only while it is held exclusively -- unless no test is running
+// (quiescent, the state in which Clean runs).
+func (x *Exec) checkGuard(s *State, named *types.Named, field string, base *Term, write bool, n ast.Node) {
+	lockField, ok := x.u.Specs.Guards[x.u.namedKey(named)+"."+field]
+	if !ok {
+		return
+	}
+	lock := Select(x.getSt(s, x.u.fieldVar(named, lockField), arraySort(SRef, SRef)), base)
+	h := Select(x.getSt(s, "held", arraySort(SRef, SInt)), lock)
+	var cond *Term
+	if write {
+		cond = Eq(h, Num(2))
+	} else {
+		cond = Not(Eq(h, Num(0)))
+	}
+	q := x.getSt(s, "quiescent", SBool)
+	x.nGuard++
+	pos := x.u.Fset.Position(n.Pos())
+	what := "read"
+	if write {
+		what = "write"
+	}
+	x.oblige(s, "guard", fmt.Sprintf("%s.%s.%d", field, what, x.nGuard), Or(q, cond), what+" of "+exprStringNode(n)+" requires "+lockField+" held", fmt.Sprintf("%s:%d", x.fi.File, pos.Line))
 }
